@@ -8,6 +8,8 @@ type scope struct {
 	outer           *scope
 	declarationList []ast.Declaration
 	labels          []string
+	labelSet        []string // the labels directly in front of the statement about to be parsed (12.12)
+	iterLabels      []string // the label sets of the enclosing iteration statements: the targets of continue (12.7)
 	allowIn         bool
 	inIteration     bool
 	inSwitch        bool
@@ -27,6 +29,17 @@ func (p *parser) closeScope() {
 
 func (p *scope) declare(declaration ast.Declaration) {
 	p.declarationList = append(p.declarationList, declaration)
+}
+
+// isIterationLabel reports whether name is in the label set of an enclosing
+// iteration statement of the current function.
+func (p *scope) isIterationLabel(name string) bool {
+	for _, label := range p.iterLabels {
+		if label == name {
+			return true
+		}
+	}
+	return false
 }
 
 func (p *scope) hasLabel(name string) bool {
